@@ -240,7 +240,7 @@ func runRun(t *testing.T, s *Scenario) (evs []wire.Event) {
 			"min", rp.MinTTL, "max", rp.MaxTTL, "timeout_us", int64(rp.TimeoutMs)*1000, "delay_us", int64(rp.DelayMs)*1000, "poll_us", 100000,
 			"target", rp.Hostname, "port", rp.Port, "cancel_us", s.CancelUs, "filter", s.Script.Filter,
 			"protocol", rp.Protocol, "tcp_method", rp.TCPMethod, "queries", rp.Queries, "e2e", rp.E2E, "reverse_dns", rp.ReverseDNS,
-			"http_method", rp.HTTPMethod, "http_path", rp.HTTPPath, "expect_status", numExtra(s, "expect_status"), "expect", expectOf(s), "expect20", expect20Of(s), "expect17", expect17Of(s), "public_ip", rp.PublicIP, "pub_mode", rp.PubMode, "skip_private", rp.SkipPrivate, "query", rp.Query, "want_v6", rp.WantV6, "paris", rp.Paris)
+			"http_method", rp.HTTPMethod, "http_path", rp.HTTPPath, "expect_status", numExtra(s, "expect_status"), "expect", expectOf(s), "expect20", expect20Of(s), "expect17", expect17Of(s), "public_ip", rp.PublicIP, "pub_mode", rp.PubMode, "skip_private", rp.SkipPrivate, "query", rp.Query, "want_v6", rp.WantV6, "paris", rp.Paris, "others", len(s.Mix), "hist", len(s.Before))
 		ctx, cancel := context.WithCancel(context.Background())
 		defer cancel()
 		if boolExtra(s, "cancel_at_start") { // the caller's context is already cancelled when the request starts
